@@ -45,7 +45,7 @@ type params struct {
 }
 
 func (*prop) Cases(seed int64, tier string) []core.Case {
-	nc, n := 16, 2
+	nc, n := 16, 4
 	if tier == "thorough" {
 		nc, n = 64, 10
 	}
